@@ -42,6 +42,29 @@ def quiet(f, *a, **k):
         return f(*a, **k)
 
 
+def failing_input(cls, as_list=False):
+    """an exception raised by the implementation inside a VALID cell is a failing input of the property (the sampler does
+    not deliver draws), to be reported with its own replay -- not a crash of the generator"""
+    def deco(fn):
+        import functools, traceback
+        @functools.wraps(fn)
+        def wrapped(ctx, meta, *a, **k):
+            try:
+                return fn(ctx, meta, *a, **k)
+            except Exception as e:
+                tb = traceback.extract_tb(e.__traceback__)
+                where = next(("%s:%d %s" % (os.path.basename(f.filename), f.lineno, f.name) for f in reversed(tb)
+                              if "cuqi" in f.filename), "harness")
+                name = cls(meta) if callable(cls) else cls
+                c = Case(expr="false", meta=meta, cell="%s/raises" % name, kind="DECISION",
+                         impl_fail="%s: %s: %s (raised at %s) in a cell where the implementation is expected to deliver draws"
+                                   % (name, type(e).__name__, str(e)[:160], where),
+                         signature="%s._sample|raises:%s" % (name, type(e).__name__))
+                return [c] if as_list else c
+        return wrapped
+    return deco
+
+
 def dy(rng, lo=-4, hi=4, den=4):
     """small dyadic number"""
     return rng.randint(lo * den, hi * den) / den
@@ -379,6 +402,7 @@ def gaussian_cases(ctx, cases):
     ctx.note("gaussian: repair state per triangular case (1 = code as it stands, 2 = repaired, 3 = both agree): %s" % dict(states))
 
 
+@failing_input('Gaussian')
 def gaussian_case(ctx, meta, states=None):
     import scipy.sparse as spa
     n = meta["dim"]
@@ -583,6 +607,116 @@ def gaussian_variant_cases(ctx, cases):
             cases.extend(split_verdict(gaussian_case(ctx, meta, states)))
 
 
+def exact_matrix(rng, n, shape):
+    """power-of-two diagonal, small dyadic off-diagonal entries: triangular / diagonal solves are exact in binary64"""
+    M = np.diag([rng.choice([1.0, 2.0, 0.5, -1.0, 4.0, -0.25]) for _ in range(n)])
+    for i in range(n):
+        for j in range(n):
+            if (shape == "upper" and j > i) or (shape == "lower" and j < i):
+                M[i, j] = rng.choice([0, 1, -1, 0.5, 2, -0.25])
+    if shape != "diag" and not np.any(M - np.diag(np.diag(M))):
+        M[(0, n - 1) if shape == "upper" else (n - 1, 0)] = 1.0
+    return M
+
+
+@failing_input('Gaussian')
+def gaussian_exact_case(ctx, meta):
+    """EXACT comparison (no tolerance): S T = T S = I over Q, every draw = mean + T z over Q, and columns of the public
+    sample(N) with N == dim are the draws for the columns of the scripted normals in order"""
+    import scipy.sparse as spa
+    d = build_gaussian(meta)
+    n = meta["dim"]
+    S = dense(d.sqrtprec)
+    off, T, _ = read_affine(d, n, 1, meta["iface"])
+    mean = np.atleast_1d(np.asarray(d.mean, dtype=float))
+    Z = np.array(meta["Z"], dtype=float)                      # n x n scripted normals, not symmetric
+    w = quiet(d.sample, n, rng=NormalScript([Z]))             # public entry point, N == dim
+    cols = np.asarray(w.samples, dtype=float)
+    expr = "check_gauss_exact %s %s %s %s" % (cqv(mean), cqm(S), cqv(off), cqm(T))
+    for j in range(n):
+        expr += " && check_draw_exact %s %s %s %s" % (cqv(off), cqm(T), cqv(Z[:, j]), cqv(cols[:, j]))
+    # independent reference: exact inverse of the matrix GIVEN to the constructor, in rational arithmetic
+    Sin = [[frac(x) for x in row] for row in meta["value"]] if meta["shape"] != "vector" else \
+        [[frac(meta["value"][i]) if i == j else Fraction(0) for j in range(n)] for i in range(n)]
+    Tf = [[frac(x) for x in row] for row in T]
+    prod = [[sum(Sin[i][k] * Tf[k][j] for k in range(n)) for j in range(n)] for i in range(n)]
+    fail = None
+    if prod != [[Fraction(int(i == j)) for j in range(n)] for i in range(n)]:
+        fail = "the linear part of the draws is not the exact inverse of the given sqrtprec (dyadic data, exact solves)"
+    else:
+        mf = [frac(x) for x in (np.repeat(mean, n) if len(mean) == 1 else mean)]
+        for j in range(n):
+            ref = [mf[i] + sum(Tf[i][k] * frac(Z[k, j]) for k in range(n)) for i in range(n)]
+            if [frac(x) for x in cols[:, j]] != ref:
+                fail = "column %d of sample(N=%d) is not the draw for column %d of the normals (N == dim)" % (j, n, j)
+                break
+    return Case(expr=expr, meta=meta, cell="gaussian-exact/%s%s" % (meta["shape"], "(sparse)" if meta.get("sparse_format") else ""),
+                kind="EXACT", impl_fail=fail, signature="Gaussian._sample|exact" if fail else "")
+
+
+def gaussian_exact_cases(ctx, cases):
+    rng = ctx.rng
+    k = 0
+    for n in ((3, 4) if not ctx.thorough else (2, 3, 4, 5)):
+        for shape, fmt in (("diag", None), ("upper", None), ("lower", None), ("vector", None), ("upper", "csr"), ("lower", "csc"),
+                           ("diag", "dia"), ("upper", "coo")):
+            for rep in range(ctx.n(1, 3)):
+                k += 1
+                if shape == "vector":
+                    val = [rng.choice([1.0, 2.0, 0.5, 4.0, 0.25]) for _ in range(n)]
+                else:
+                    val = exact_matrix(rng, n, shape).tolist()
+                meta = {"op": "gauss_exact", "form": "sqrtprec", "shape": shape, "sparse_input": bool(fmt), "sparse_format": fmt, "dim": n,
+                        "value": val, "mean": [dy(rng) for _ in range(n)] if k % 3 else dy(rng), "mean_kind": "vector",
+                        "iface": ["rng", "global", "N1"][k % 3], "Z": [[rng.randint(-8, 8) / 4 for _ in range(n)] for _ in range(n)]}
+                cases.append(gaussian_exact_case(ctx, meta))
+
+
+ENTRY_SPECS = [["Normal", [0.0, 1.0, -1.0], 2.0], ["Normal", 0.5, 2.0], ["Gamma", [1.0, 2.0, 3.0], [1.0, 1.0, 2.0]],
+               ["Gaussian", [0.0, 1.0], "sqrtprec", [[2.0, 1.0], [0.0, 1.0]]], ["GMRF", [0.0, 0.0, 0.0, 0.0], 2.0, "zero", 1],
+               ["GMRF", [0.0, 0.0, 0.0, 0.0], 2.0, "neumann", 1], ["Beta", 2.0, 3.0], ["Uniform", [0.0, 1.0, 2.0], [1.0, 3.0, 5.0]],
+               ["Lognormal", [0.0, 1.0], 1.0], ["Laplace", 0.0, 1.0], ["Cauchy", [0.0, 1.0, 2.0], 1.0], ["InverseGamma", 3.0, 1.0, 2.0]]
+
+
+@failing_input(lambda m: m['spec'][0])
+def entry_case(ctx, meta):
+    """every way of calling the entry point sample(N=1, rng=None): N omitted, positional, keyword, numpy integer; rng positional or
+    keyword -- same seeded generator => identical result, of the kind the property prescribes"""
+    spec, seed = meta["spec"], meta["seed"]
+    d = build_named(spec)
+    RS = lambda: np.random.RandomState(seed)
+    raw1 = np.asarray(quiet(d._sample, 1, rng=RS()), dtype=float)
+    raw3 = np.asarray(quiet(d._sample, 3, rng=RS()), dtype=float)
+    ones = {"sample(rng=g)": quiet(d.sample, rng=RS()), "sample(1, g)": quiet(d.sample, 1, RS()),
+            "sample(N=1, rng=g)": quiet(d.sample, N=1, rng=RS()), "sample(np.int64(1), rng=g)": quiet(d.sample, np.int64(1), rng=RS()),
+            "sample(np.int32(1), g)": quiet(d.sample, np.int32(1), RS())}
+    threes = {"sample(3, g)": quiet(d.sample, 3, RS()), "sample(N=3, rng=g)": quiet(d.sample, N=3, rng=RS()),
+              "sample(np.int64(3), rng=g)": quiet(d.sample, np.int64(3), rng=RS())}
+    exprs, fail = [], None
+    for nm, w in ones.items():
+        exprs.append("check_wrap false 1%%nat %s %s" % (enc_raw(raw1), enc_wrapped(w)))
+        fail = fail or (("%s: " % nm) + shape_verdict(d, w, 1) if shape_verdict(d, w, 1) else None)
+    for nm, w in threes.items():
+        exprs.append("check_wrap false 3%%nat %s %s" % (enc_raw(raw3), enc_wrapped(w)))
+        fail = fail or (("%s: " % nm) + shape_verdict(d, w, 3) if shape_verdict(d, w, 3) else None)
+    if not fail:
+        a0 = np.asarray(list(ones.values())[0], dtype=float)
+        for nm, w in ones.items():
+            if not np.array_equal(np.asarray(w, dtype=float), a0):
+                fail = "%s differs from sample(rng=g) under the same generator state" % nm
+        b0 = np.asarray(list(threes.values())[0].samples, dtype=float)
+        for nm, w in threes.items():
+            if not np.array_equal(np.asarray(w.samples, dtype=float), b0):
+                fail = "%s differs from sample(3, g) under the same generator state" % nm
+    return Case(expr=" && ".join(exprs), meta=meta, cell="entry/%s" % spec[0], kind="EXACT", impl_fail=fail,
+                signature=("Distribution.sample|call-style:%s" % spec[0]) if fail else "")
+
+
+def entry_cases(ctx, cases):
+    for spec in ENTRY_SPECS:
+        cases.append(entry_case(ctx, {"op": "entry", "spec": spec, "seed": ctx.rng.randint(0, 10 ** 6)}))
+
+
 def lognormal_cases(ctx, cases):
     import cuqi
     rng = ctx.rng
@@ -601,6 +735,7 @@ def lognormal_cases(ctx, cases):
         cases.append(lognormal_case(ctx, meta))
 
 
+@failing_input('Lognormal')
 def lognormal_case(ctx, meta):
     import cuqi
     n = meta["dim"]
@@ -643,6 +778,37 @@ def build_gmrf(meta):
         mean = float(mean)
         kw.setdefault("geometry", n)
     return quiet(cuqi.distribution.GMRF, mean, meta["prec"], bc, order=order, **kw)
+
+
+class ShapeProbe:
+    """generator that records which standard-normal arrays are requested and returns zeros"""
+    def __init__(self):
+        self.shapes = []
+
+    def standard_normal(self, shape):
+        self.shapes.append(tuple(int(x) for x in shape))
+        return np.zeros(shape)
+
+    def randn(self, *shape):
+        self.shapes.append(tuple(int(x) for x in shape))
+        return np.zeros(shape)
+
+
+def gmrf_protocol(d, bc):
+    """(rows of the normal array, number of arrays, kind) the sampler asks for.  periodic: 'dft' = the code as it stands (two
+    n x N arrays, real and imaginary part), 'solve' = fixes/C05_gmrf_periodic_sampler.diff (the neumann construction)"""
+    n = d.dim
+    if bc == "zero":
+        return n, 1, "chol"
+    if bc == "neumann":
+        return d._diff_op.shape[0], 1, "solve"
+    pr = ShapeProbe()
+    quiet(d._sample, 2, rng=pr)
+    if pr.shapes == [(n, 2), (n, 2)]:
+        return n, 2, "dft"
+    if pr.shapes == [(d._diff_op.shape[0], 2)]:
+        return d._diff_op.shape[0], 1, "solve"
+    raise AssertionError("GMRF periodic sampler requests standard normals of shapes %s" % (pr.shapes,))
 
 
 def gmrf_configs(ctx):
@@ -689,11 +855,16 @@ def gmrf_refuse_case(ctx, meta):
         refused = False
     except NotImplementedError:
         refused = True
+    if not refused:
+        # fixes/C05_gmrf_periodic_sampler.diff: 2-d periodic is sampled like neumann; then it must be right
+        cs = gmrf_case(ctx, dict(meta, op="gmrf", iface="rng", z=[0.5] * 80))
+        return cs[0]
     return Case(expr=cbool(refused), meta=meta, cell="gmrf/periodic-2d-refused", kind="DECISION",
                 impl_fail=None if refused else "GMRF periodic 2-d sampling no longer refused", signature="" if refused else "GMRF._sample|periodic-2d",
                 trivial=True)
 
 
+@failing_input('GMRF', as_list=True)
 def gmrf_case(ctx, meta, n1_states=None):
     from scipy.linalg import dft
     d = build_gmrf(meta)
@@ -703,13 +874,12 @@ def gmrf_case(ctx, meta, n1_states=None):
     prec = float(meta["prec"])
     r = float(np.sqrt(prec))
     mean = np.atleast_1d(np.asarray(d.mean, dtype=float))
-    m = {"zero": n, "neumann": D.shape[0], "periodic": n}[bc]
-    ncalls = 2 if bc == "periodic" else 1
+    m, ncalls, proto = gmrf_protocol(d, bc)
     off, T, calls = read_affine(d, m, ncalls, meta["iface"])
     kind = "standard_normal" if meta["iface"] == "rng" else "randn"
     exp_calls = [(kind, (m, 1 + ncalls * m))] * ncalls
     common = "%s %s %s %s %s %s" % (cnat(n), cqv(mean), cq(prec), cq(r), cqm(P), cqm(D))
-    if bc == "periodic":
+    if proto == "dft":
         F = dft(n, scale="sqrtn")
         ev = np.asarray(d._L_eigval, dtype=float)
         evc = np.hstack([ev, ev[-1]])
@@ -717,7 +887,7 @@ def gmrf_case(ctx, meta, n1_states=None):
         expr = "check_gmrf_periodic %s %s %s %s %s %s %s" % (common, cqm(F.real), cqm(F.imag), cqv(ev), cqv(w), cqv(off), cqm(T))
     else:
         L = dense(d._chol)
-        expr = "check_gmrf_%s %s %s %s %s" % (bc, common, cqm(L), cqv(off), cqm(T))
+        expr = "check_gmrf_%s %s %s %s %s" % ("zero" if proto == "chol" else "neumann", common, cqm(L), cqv(off), cqm(T))
     expr += " && %s" % cbool(calls == exp_calls)
     # the difference operator itself is computed by the model (stencil per boundary condition / order / 1-d or 2-d)
     nodes = int(round(math.sqrt(n))) if meta.get("two_d") else n
@@ -733,7 +903,7 @@ def gmrf_case(ctx, meta, n1_states=None):
     elif defect > tol:
         fail = ("GMRF(%s, order %d, dim %d%s): covariance of the draws is not the generalised inverse of the precision implied by "
                 "logd: |H C H - H|/|H| = %.3g" % (bc, meta["order"], n, " 2-d" if meta.get("two_d") else "", defect))
-        sig = SIG_PER if (bc == "periodic" and meta["order"] >= 1) else "GMRF._sample|covariance:%s:order%d" % (bc, meta["order"])
+        sig = SIG_PER if (proto == "dft" and meta["order"] >= 1) else "GMRF._sample|covariance:%s:order%d" % (bc, meta["order"])
     cell = "gmrf/%s/order%d/%s" % (bc, meta["order"], "2d" if meta.get("two_d") else "1d")
     out = [Case(expr=expr, meta=meta, cell=cell, kind="EXACT", impl_fail=fail, signature=sig)]
     # one draw (N = 1) through _sample and through sample
@@ -849,10 +1019,11 @@ def univariate_cases(ctx, cases):
     k = 0
     for fam in FAMILY_GEN:
         for form in ("scalar", "vector", "mixed"):
-            for N in (1, 2, 5):
+            for N0 in (1, 2, 5, "dim"):
                 for rep in range(ctx.n(1, 4)):
                     k += 1
-                    n = 1 if (form == "scalar" and rep % 2 == 0) else rng.choice([2, 3, 4])
+                    n = 1 if (form == "scalar" and rep % 2 == 0 and N0 != "dim") else rng.choice([2, 3, 4])
+                    N = n if N0 == "dim" else N0          # N == dim: (dim, N) and (N, dim) have the same shape
                     ps = rand_params(rng, fam, form, n)
                     G = [[rng.randint(1, 63) / 64 for _ in range(n)] for _ in range(N)]
                     meta = {"op": "wiring", "family": fam, "form": form, "dim": n, "N": N, "params": ps, "G": G,
@@ -871,6 +1042,7 @@ def ref_logpdf(api_name, args, x):
     return dist, float(np.sum(dist.logpdf(x)))
 
 
+@failing_input(lambda m: m.get('family'))
 def wiring_case(ctx, meta, dist=None):
     import cuqi, importlib
     fam, N, n = meta["family"], meta["N"], meta["dim"]
@@ -882,11 +1054,16 @@ def wiring_case(ctx, meta, dist=None):
         rec = RecGen(G)
         if meta["iface"] == "rng":
             raw = d._sample(N, rng=rec)
+            pub = d.sample(N, rng=RecGen(G))          # the public entry point under the same scripted generator
         else:
             def script(kind, a, k, idx):
                 return getattr(rec, kind)(*a, **k)
             with ScriptedRandom(script=script):
                 raw = d._sample(N)
+            calls0 = list(rec.calls)
+            with ScriptedRandom(script=script):
+                pub = d.sample(N)
+            rec.calls = calls0
         calls = [(nm, b) for nm, b in rec.calls]
     else:
         mod = importlib.import_module("cuqi.distribution." + SCIPY_MODULE[fam])
@@ -896,6 +1073,9 @@ def wiring_case(ctx, meta, dist=None):
         rs = np.random.RandomState(3) if meta["iface"] == "rng" else None
         try:
             raw = d._sample(N, rng=rs) if rs is not None else d._sample(N)
+            ncalls = len(got)
+            pub = d.sample(N, rng=rs) if rs is not None else d.sample(N)
+            del got[ncalls:]
         finally:
             mod.sps = real
         calls = [(nm, k) for nm, k, a in got]
@@ -923,6 +1103,11 @@ def wiring_case(ctx, meta, dist=None):
         fail = "%s._sample made the generator calls %s" % (fam, [(c[0], sorted(c[1])) for c in calls])
     elif raw.shape != (n, N) or not np.array_equal(raw, G.T):
         fail = "%s._sample does not return the generated N x dim array transposed (shape %s)" % (fam, raw.shape)
+    elif N > 1 and not (np.shape(pub.samples) == (n, N) and all(np.array_equal(np.asarray(pub.samples)[:, j], G[j]) for j in range(N))):
+        fail = ("%s.sample(%d): draw j (column j of the Samples) is not the j-th generated vector (dim %d%s)"
+                % (fam, N, n, ", N == dim" if N == n else ""))
+    elif N == 1 and not np.array_equal(np.ravel(np.asarray(pub, dtype=float)), G[0]):
+        fail = "%s.sample(1) is not the generated vector" % fam
     elif not skip_density:
         bargs = [np.broadcast_to(a, (n,)) if len(a) in (1, n) else a for a in args]
         dist, _ = ref_logpdf(gname, bargs, np.zeros(n))
@@ -1040,6 +1225,7 @@ def wrapper_cases(ctx, cases):
             cases.append(wrapper_defect_case(ctx, {"op": "wrap_defect", "spec": spec, "N": N, "sig": sig}))
 
 
+@failing_input(lambda m: m['spec'][0])
 def wrapper_case(ctx, meta):
     N = meta["N"]
     d = build_named(meta["spec"])
@@ -1148,7 +1334,7 @@ RNG_SPECS = WRAP_SPECS + [["GMRF", [0.0, 0.0, 0.0, 0.0], 2.0, "neumann", 1], ["G
 CLASS_OF = {"UserDefined": ["UserDefinedDistribution"], "Gallery": ["DistributionGallery", "Gaussian"], "Lognormal": ["Lognormal", "Gaussian"]}
 
 
-RNG_KINDS = ("RandomState", "Generator-PCG64", "Generator-MT19937", "duck-legacy", "duck-new")
+RNG_KINDS = ("RandomState", "Generator-PCG64", "Generator-MT19937", "duck-legacy", "duck-new", "duck-falsy")
 
 
 class DuckRng:
@@ -1168,6 +1354,14 @@ class DuckRng:
         return g
 
 
+class FalsyRng(DuckRng):
+    def __bool__(self):
+        return False
+
+    def __len__(self):
+        return 0
+
+
 def mk_rng(kind, seed):
     if kind == "RandomState":
         return np.random.RandomState(seed)
@@ -1177,6 +1371,8 @@ def mk_rng(kind, seed):
         return np.random.Generator(np.random.MT19937(seed))
     if kind == "duck-legacy":       # the legacy spelling only: randn, no standard_normal
         return DuckRng(seed, ["randn", "normal", "gamma", "uniform", "laplace"])
+    if kind == "duck-falsy":        # a complete generator that is FALSY (`if rng:` instead of `if rng is not None:` would drop it)
+        return FalsyRng(seed, ["randn", "standard_normal", "normal", "gamma", "uniform", "laplace"])
     if kind == "duck-new":          # the new spelling only: standard_normal, no randn
         return DuckRng(seed, ["standard_normal", "normal", "gamma", "uniform", "laplace"])
     raise ValueError(kind)
@@ -1398,6 +1594,7 @@ def mhn_prop(a, b, g, first, p, u, accepted, Gam=None):
     return " /\\ ".join("(%s)" % s for s in props), unf + " repeat split; interval with (i_prec 90)."
 
 
+@failing_input('ModifiedHalfNormal')
 def mhn_case(ctx, meta, dobj=None):
     import cuqi
     if dobj is None:
@@ -1475,6 +1672,7 @@ def mhn_acceptance_oracle(dobj, a, b, g, q):
     return None
 
 
+@failing_input('ModifiedHalfNormal')
 def mhn_public_case(ctx, meta):
     """sample() must work with the parameters of the density the same object reports (whatever its getters return)"""
     import cuqi
@@ -1524,6 +1722,7 @@ def as_param(val, shp, fmt):
     return v
 
 
+@failing_input('Gaussian')
 def gaussian_history_case(ctx, meta):
     """one Gaussian object through a sequence of assignments; after every step the object is read off (affine map under
     scripted normals), compared bit for bit with a FRESH object built from the current parameters, checked by the model
@@ -1583,12 +1782,12 @@ def gaussian_history_case(ctx, meta):
                 signature="Gaussian|history:%s" % form if fail else "")
 
 
+@failing_input('GMRF')
 def gmrf_history_case(ctx, meta):
     n, bc, order = meta["dim"], meta["bc"], meta["order"]
     m0 = dict(meta, op="gmrf", mean=meta["mean"], prec=meta["prec"], two_d=False)
     d = build_gmrf(m0)
-    mrows = {"zero": n, "neumann": d._diff_op.shape[0], "periodic": n}[bc]
-    ncalls = 2 if bc == "periodic" else 1
+    mrows, ncalls, proto = gmrf_protocol(d, bc)
     exprs, fails = [], []
     cur = {"mean": meta["mean"], "prec": meta["prec"]}
     def observe(tag):
@@ -1603,7 +1802,7 @@ def gmrf_history_case(ctx, meta):
             fails.append("%s: logd differs from a fresh object's" % tag)
         elif not np.allclose(off, np.array(cur["mean"], dtype=float), atol=1e-12):
             fails.append("%s: offset of the draws is not the current mean" % tag)
-        elif defect > tol and not (bc == "periodic" and order >= 1):
+        elif defect > tol and not (proto == "dft" and order >= 1):
             fails.append("%s: covariance of the draws does not follow the object's own logd (|HCH-H|/|H| = %.3g)" % (tag, defect))
         elif not same:
             fails.append("%s: draws differ from those of a fresh object with the same parameters" % tag)
@@ -1621,6 +1820,7 @@ UNI_ATTRS = {"Normal": ("mean", "std"), "Laplace": ("location", "scale"), "Unifo
              "InverseGamma": ("shape", "location", "scale"), "Beta": ("alpha", "beta"), "Cauchy": ("location", "scale")}
 
 
+@failing_input(lambda m: m.get('family'))
 def univariate_history_case(ctx, meta):
     """sample -> assign one parameter -> sample: the generator call after the assignment is the one the model predicts for the
     NEW parameters and the density of the generator as called is the object's own logpdf"""
@@ -1641,6 +1841,7 @@ def univariate_history_case(ctx, meta):
                 signature="%s|history" % fam if fail else "")
 
 
+@failing_input('Lognormal')
 def lognormal_history_case(ctx, meta):
     import cuqi
     n = meta["dim"]
@@ -1784,6 +1985,8 @@ def run(ctx):
         gaussian_format_cases(ctx, cases)
         gaussian_variant_cases(ctx, cases)
         gaussian_scale_cases(ctx, cases)
+        gaussian_exact_cases(ctx, cases)
+        entry_cases(ctx, cases)
         lognormal_cases(ctx, cases)
         gmrf_cases(ctx, cases)
         univariate_cases(ctx, cases)
@@ -1848,6 +2051,7 @@ REBUILD = {"gaussian": lambda ctx, m: [gaussian_case(ctx, m)], "lognormal": lamb
            "wrap": lambda ctx, m: [wrapper_case(ctx, m)], "wrap_defect": lambda ctx, m: [wrapper_defect_case(ctx, m)],
            "cond": lambda ctx, m: [conditional_case(ctx, m)], "rng": lambda ctx, m: [rng_case(ctx, m)],
            "mhn": lambda ctx, m: [mhn_case(ctx, m)], "mhn_public": lambda ctx, m: [mhn_public_case(ctx, m)],
+           "gauss_exact": lambda ctx, m: [gaussian_exact_case(ctx, m)], "entry": lambda ctx, m: [entry_case(ctx, m)],
            "hist_gauss": lambda ctx, m: [gaussian_history_case(ctx, m)], "hist_gmrf": lambda ctx, m: [gmrf_history_case(ctx, m)],
            "hist_uni": lambda ctx, m: [univariate_history_case(ctx, m)], "hist_lognormal": lambda ctx, m: [lognormal_history_case(ctx, m)]}
 
@@ -1978,8 +2182,8 @@ def replay(ctx, meta):
         if op in ("gaussian", "gmrf", "gmrf_n1"):
             d = build_gaussian(m) if op == "gaussian" else build_gmrf(m)
             n = m["dim"]
-            mm = n if op == "gaussian" else {"zero": n, "neumann": d._diff_op.shape[0], "periodic": n}[m["bc"]]
-            off, T, _ = read_affine(d, mm, 2 if m.get("bc") == "periodic" else 1, m.get("iface", "rng") if m.get("iface") != "N1" else "rng")
+            mm, nc = (n, 1) if op == "gaussian" else gmrf_protocol(d, m["bc"])[:2]
+            off, T, _ = read_affine(d, mm, nc, m.get("iface", "rng") if m.get("iface") != "N1" else "rng")
             H = hessian_of_logd(d, n, center=np.zeros(n))
             np.set_printoptions(precision=5, suppress=True, linewidth=160)
             print("offset of the draws (scripted normals = 0):", off)
